@@ -55,6 +55,10 @@ type UploadPlan struct {
 	// document of this media type (neither XML nor text), over a transport that
 	// allows one connection per host: the upload needs that connection back
 	Prelude string `json:"prelude,omitempty"`
+	// server "handler": this many uploads were refused by the same handler
+	// before (below a missing collection, onto a collection, with a failing
+	// precondition): whatever a refusal forgets to give back adds up
+	RefusedBefore int `json:"refused_before,omitempty"`
 }
 
 func uploadData(n int) []byte {
@@ -489,6 +493,29 @@ func ExecuteUpload(t *testing.T, plan *Plan, opts Opts) *RunResult {
 				name = "/up/nodir/target"
 			}
 			tr.h = &webdav.Handler{FileSystem: webdav.LocalFileSystem(w.Root)}
+			if p.RefusedBefore > 0 {
+				log.Addf(0, "%d uploads are refused by the same handler first", p.RefusedBefore)
+				realos.MkdirAll(realfp.Join(w.Root, "up", "acoll"), 0o755)
+				realos.WriteFile(realfp.Join(w.Root, "up", "afile"), []byte("kept"), 0o644)
+				for i := 0; i < p.RefusedBefore; i++ {
+					var req *http.Request
+					switch i % 3 {
+					case 0:
+						req = httptest.NewRequest("PUT", fmt.Sprintf("/up/nodir-%d/x", i%5), strings.NewReader("refused"))
+					case 1:
+						req = httptest.NewRequest("PUT", "/up/acoll", strings.NewReader("refused"))
+					default:
+						req = httptest.NewRequest("PUT", "/up/afile", strings.NewReader("refused"))
+						req.Header.Set("If-None-Match", "*")
+					}
+					rec := httptest.NewRecorder()
+					tr.h.ServeHTTP(rec, req)
+					if rec.Code/100 == 2 {
+						res.Infra = fmt.Sprintf("a PUT that must be refused was answered %d", rec.Code)
+						return
+					}
+				}
+			}
 		}
 		if p.Mode == "N" {
 			netw = newModeN(p, tr)
@@ -788,6 +815,9 @@ func GenC18Upload(seed uint64, tier string) *Plan {
 		p.Action = "answer"
 		p.ReadBytes = -1
 		p.AnswerDelayNS = rt.Pick(r, []int64{0, 1e6, 5e9})
+		if r.Chance(0.25) {
+			p.RefusedBefore = rt.Pick(r, []int{1, 9, 33, 65, 130, 260})
+		}
 	} else {
 		p.Server = "script"
 		switch r.Weighted([]int{3, 2, 4}) {
@@ -848,7 +878,7 @@ func GenC18Upload(seed uint64, tier string) *Plan {
 			p.PausesNS = []int64{0, 0, 0, 0}
 		}
 		if p.Server == "script" && r.Chance(0.2) {
-			p.Prelude = rt.Pick(r, []string{"application/json", "application/octet-stream", "image/png"})
+			p.Prelude = rt.Pick(r, []string{"application/json", "application/octet-stream", "image/png", "application/xml", "text/xml; charset=utf-8", "text/html", "text/plain"})
 		}
 		if p.Server == "script" && r.Chance(0.25) {
 			// the server answers 2xx with a body at once, reads little or nothing of
